@@ -73,6 +73,28 @@ CHECKS["C13"] = dict(
          "(Props/C13.v); tie: operation histories on a real Service object observed through HandleMessage and through the client helpers, plus Resolver helpers.",
     ref="DESIGN.md §6 C13", technique="Coq proof (invariant by induction over operation sequences) + differential correspondence")
 
+CHECKS["C11"] = dict(
+    text="Coq theorems: Send is refused iff more&oneway or more&upgrade (for every flag word), nothing is written then, otherwise the frame carries exactly the "
+         "requested bits; receive returns the decoding of exactly the next complete frame for every stream, segmentation and cut, UnexpectedEOF when the stream "
+         "ends before a NUL (Props/C11.v); tie: all flag combinations and reply streams cut at every byte offset against the real client on a scripted connection.",
+    ref="DESIGN.md §6 C11", technique="Coq proof (case analysis on flags; reader stream lemma + codec) + differential correspondence with fault injection at every offset")
+CHECKS["C14"] = dict(
+    text="Coq theorems over an interleaving model of Bind/Listen/DoListen/Shutdown/teardown/handlers: counter = WaitGroup = live handlers in every reachable "
+         "state, no connection arriving after a completed Shutdown is served, nil when Shutdown found the service waiting, bounded-step return once connections "
+         "ended, reusable afterwards, second Bind refused (Props/C14.v); tie: histories on a real Service with a controlled listener placing Shutdown before, "
+         "during and after Accept's decision.",
+    ref="DESIGN.md §6 C14", technique="Coq proof (reachability invariants + decreasing measure over an interleaving semantics) + differential correspondence on controlled schedules")
+CHECKS["C15"] = dict(
+    text="Coq theorems on the same transition system: a timeout exit implies conncounter = 0 at the expiry, an expiry with open connections loops, without a "
+         "timeout no expiry step exists, every exit closes the listener (Props/C15.v); tie: injected expiries in histories plus real-clock runs with one-sided margins "
+         "and endpoint-release checks (dial fails, re-bind succeeds at once).",
+    ref="DESIGN.md §6 C15", technique="Coq proof (reachability invariants) + differential correspondence with injected expiries + real-clock sampling")
+CHECKS["C19"] = dict(
+    text="Coq theorems: parsing is total, the three refusals, service and client agree on protocol and address for every accepted string (tail after ';' ignored), "
+         "'@' selects the abstract namespace, filesystem effects over an abstract namespace map, a failed bind changes nothing (Props/C19.v); tie: address grammar x "
+         "Bind/Listen/DoListen/Shutdown/NewConnection histories in a scratch directory under recover().",
+    ref="DESIGN.md §6 C19", technique="Coq proof (case analysis on the splits; state machine over an abstract namespace) + differential correspondence")
+
 NOT_YET = {
 }
 
